@@ -170,6 +170,8 @@ inductive ValKind where
   | u64     -- uint64, JSON decimal
   | bytes   -- `[]byte` of the decimal digits (an uncomparable Go value), JSON base64
   | str     -- string of the decimal digits
+  | ptr     -- `*uint64` (compared by pointee, never by address), JSON decimal
+  | iface   -- struct with an `interface{}` field holding a slice: `{"X":["<digits>"]}`
   deriving Repr, DecidableEq, Inhabited
 
 namespace Codec
@@ -204,6 +206,8 @@ def valBytes (vk : ValKind) (v : Nat) : Bytes :=
   | .u64 => digits v
   | .bytes => quote (b64std (digits v))
   | .str => quote (digits v)
+  | .ptr => digits v
+  | .iface => str "{\"X\":[" ++ quote (digits v) ++ str "]}"
 
 end Codec
 end Mast
